@@ -174,6 +174,15 @@ func (o *objectAttrAccessorStrategy) evaluate(m *MethodEvaluator) error {
 			return err
 		}
 
+		// end of file right after the attribute list
+		if nextT == nil {
+			if m.ctx.IsCheckRound() {
+				setAttrInfos(m, currentTs, defineRow)
+			}
+
+			return nil
+		}
+
 		switch nextT.ToString() {
 		case "\n":
 			m.parser.Unget()
